@@ -29,6 +29,21 @@ def mutants(data, rng, n, others=()):
             b = bytearray(data)
             b[i] = v
             add(b)
+    # every proper prefix (short inputs) / a sample of cut positions (long inputs): a cut right behind a
+    # length field is where a parser reads bytes that are not there
+    cuts = range(1, L) if L <= 160 else sorted(rng.sample(range(1, L), 64))
+    for k in cuts:
+        add(data[:k])
+    # saturate single bytes anywhere (length / count / timestamp fields in the middle of a message)
+    spots = range(L) if L <= 96 else sorted(rng.sample(range(L), 48))
+    for i in spots:
+        for v in (0xff, 0x7f):
+            b = bytearray(data)
+            b[i] = v
+            add(b)
+    for v in ber_variants(data):
+        add(v)
+    n = n + len(out)
     tries = 0
     while len(out) < n and tries < n * 6 and L:
         tries += 1
@@ -66,3 +81,69 @@ def mutants(data, rng, n, others=()):
             b[i] = (b[i] + rng.choice([1, -1, 2, 16, 128])) & 0xff
         add(b)
     return out[:n]
+
+
+def _ber_tree(data, start, end, depth=0):
+    """definite-length TLV nodes (offset, header_len, length, children) or None if not BER-shaped"""
+    nodes = []
+    pos = start
+    while pos < end:
+        if pos + 2 > end:
+            return None
+        first = data[pos + 1]
+        if first < 0x80:
+            hl, ln = 2, first
+        else:
+            k = first & 0x7f
+            if k == 0 or k > 4 or pos + 2 + k > end:
+                return None
+            hl, ln = 2 + k, int.from_bytes(data[pos + 2:pos + 2 + k], 'big')
+        if pos + hl + ln > end:
+            return None
+        children = None
+        if data[pos] & 0x20 and depth < 6:
+            children = _ber_tree(data, pos + hl, pos + hl + ln, depth + 1)
+        nodes.append((pos, hl, ln, children or []))
+        pos += hl + ln
+    return nodes
+
+
+def _ber_encode(data, node, target, form):
+    """re-encode the subtree rooted at node; the node at offset `target` gets a non-minimal length form"""
+    pos, hl, ln, children = node
+    if children:
+        body = b''.join(_ber_encode(data, c, target, form) for c in children)
+    else:
+        body = bytes(data[pos + hl:pos + hl + ln])
+    if pos == target:
+        lenbytes = bytes([0x80 | form]) + len(body).to_bytes(form, 'big')
+    elif hl == 2 and len(body) < 0x80:
+        lenbytes = bytes([len(body)])
+    else:
+        k = max(hl - 2, (len(body).bit_length() + 7) // 8, 1)
+        lenbytes = bytes([0x80 | k]) + len(body).to_bytes(k, 'big')
+    return bytes([data[pos]]) + lenbytes + body
+
+
+def ber_variants(data):
+    """the same BER value with the length of one TLV written in a longer (non-minimal) form"""
+    data = bytes(data)
+    if len(data) < 2 or data[0] not in (0x30, 0x31) or len(data) > 4000:
+        return []
+    tree = _ber_tree(data, 0, len(data))
+    if not tree or len(tree) != 1:
+        return []
+    out = []
+    todo = [tree[0]]
+    offsets = []
+    while todo and len(offsets) < 12:
+        nd = todo.pop(0)
+        offsets.append(nd[0])
+        todo += nd[3]
+    for off in offsets:
+        for form in (1, 2, 4):
+            try:
+                out.append(_ber_encode(data, tree[0], off, form))
+            except Exception:  # pylint: disable=broad-except
+                pass
+    return out
